@@ -225,6 +225,43 @@ func runC15(c *Ctx) {
 	}
 	doEnc("infinity", []byte{0})
 	doEnc("valid", valid)
+	// projective representatives whose Z has STRUCTURED Montgomery limbs (low or high 32-bit halves zero, a single
+	// non-zero limb): encoding and affine conversion must not take them for infinity (seeded C15-c narrowed the
+	// zero test of an element to 32 bits)
+	for it := 0; it < 48; it++ {
+		A := affMul(new(big.Int).SetBytes(c.rng.Bytes(32)), affG())
+		var zl [4]uint64
+		kind := []string{"low-halves-zero", "high-halves-zero", "single-limb"}[it%3]
+		for i := 0; i < 4; i++ {
+			switch kind {
+			case "low-halves-zero":
+				zl[i] = uint64(1+c.rng.Intn(1<<30)) << 32
+			case "high-halves-zero":
+				zl[i] = uint64(1 + c.rng.Intn(1<<30))
+			default:
+				if i == (it/3)%4 {
+					zl[i] = []uint64{1, 1 << 32, 1 << 31, 1 << 62}[(it/12)%4]
+				}
+			}
+		}
+		zl[3] &= 0x7fffffffffffffff // keep the value below p
+		le := new(sm2.VerifElement).SetRaw(zl)
+		x, y, _ := pointFromAff(A).VerifCoords()
+		ex, ey := new(sm2.VerifElement).SetRaw(x), new(sm2.VerifElement).SetRaw(y)
+		ex.Mul(ex, le)
+		ey.Mul(ey, le)
+		q := sm2.VerifFromCoords(*ex.GetRaw(), *ey.GetRaw(), zl)
+		cl := "bytes/structured-z/" + kind
+		req := "pt.bytes " + ptHex(q)
+		c.Case("pt.bytes", cl, false, req)
+		want := fmt.Sprintf("%x", encodeAff(A))
+		if got := fmt.Sprintf("%x", q.Bytes()); got != want {
+			c.Disagree(Disagreement{Kind: "impl!=spec", Class: cl, Request: req, Impl: got, Spec: want, Stream: "pt.bytes"})
+		}
+		if got := fmt.Sprintf("%x", q.Bytes_Unsafe()); got != want {
+			c.Disagree(Disagreement{Kind: "impl!=spec", Class: cl + "/unsafe", Request: req, Impl: got, Spec: want, Stream: "pt.bytes"})
+		}
+	}
 }
 
 func init() { runners["C15"] = runC15 }
